@@ -257,6 +257,8 @@ package decoder
 //@   assert before (reference.Targets).Match#1 : [C11] implies(!typeis(origin, "reference.PathOrigin"), targetCtx == pathCtx && targetPath == path)
 //@   assert before (reference.Targets).Match#1 : [C11,C02] implies(typeis(origin, "reference.PathOrigin"), targetPath == as(origin, "reference.PathOrigin").TargetPath)
 //@   assert before (reference.Targets).Match#1 : [C11] arg0 == targetCtx.ReferenceTargets
+//@   ghost lookedUp after invoke:PathContext#2 : ctx
+//@   assert before (reference.Targets).Match#1 : [C11,C02] implies(typeis(origin, "reference.PathOrigin"), targetCtx == lookedUp)
 
 // ---- C13/C10: like hover, tokens and origins of an object item come from the schema declared under that
 // ---- item's own key, applied to that item's own value.
